@@ -64,6 +64,17 @@ PROPS["C08"] = {
                        extra_entries={"rtpklv": ["ZzC08KLVInd"], "rtpfragmented": ["ZzC08FragmentedInd"]}),
 }
 
+# ---------------------------------------------------------------- C09
+PROPS["C09"] = {
+    "claimed": False, "level_text": "tbd", "level_note": "tbd",
+    "runs": [
+        R("mikey-total", "pkg/mikey", "pkg/mikey", ["ZzC09MikeyTotal"], flags={"concoff": True}, quick_params={"P": 24}, thorough_params={"P": 32}),
+        R("session", "pkg/headers", "pkg/headers", ["ZzC09SessionRT", "ZzC09SessionTotal"], flags={"concoff": True, "qtimeout": 120000}, quick_params={"P": 8}, thorough_params={"P": 10}),
+        R("determinism", "pkg/headers", "pkg/headers", ["ZzC09TransportDeterministic", "ZzC09RangeDeterministic"], flags={"mapperm": True},
+          quick_params={"NTOK": 2}, thorough_params={"NTOK": 3}, replay_repeat=400),
+    ],
+}
+
 # ---------------------------------------------------------------- C14
 PROPS["C14"] = {
     "level_text": "One inductive step of the real reorder buffer (ProcessPacket2 / reorder) from EVERY pre-state satisfying the representation invariant: last delivered sequence number, packet sequence number and all counters are free 16/64-bit variables (so every wrap position is covered at once), every occupancy pattern of the buffer and every restart-counter value is explored, for buffer sizes 1,2,4 (quick) and 8 (thorough). The post-state and the returned packets are compared with a reference receiver written in the harness: strictly increasing delivery modulo 2^16, no duplicates, displaced packets inside the window are buffered not dropped, lost = skipped sequence numbers, counters, cycle counting, restart after B+1 old packets, invariant re-established. Because the invariant is inductive, the step result covers arrival histories of any length. Reliable mode and the receiver-report assembly (extended highest sequence number, 24-bit clamp, fraction) are separate obligations over all 16/32/64-bit values.",
